@@ -11,12 +11,13 @@ Seed == IF "SEED" \in DOMAIN IOEnv THEN atoi(IOEnv.SEED) % 1000 ELSE 1
 IsReplay == "REPLAYONE" \in DOMAIN IOEnv      \* validate a single replayed case: no completeness demand
 
 (* The tier's share of the universe: thorough = everything; quick = every short placement and a seeded
-   1/4 (Part A, length 2) resp. 1/16 (Part B, length 3) of the long ones; Part C always complete. *)
+   1/4 (Part A, length 2) resp. 1/16 (Part B, length 3) resp. 1/16 (Part D, length 2) of the long ones; Part C always complete. *)
 Selected(c) ==
   \/ Tier = "thorough"
   \/ c.part = "C"
   \/ c.part = "A" /\ (Len(c.path) <= 1 \/ (CaseWeight(c) + Seed) % 4 = 0)
   \/ c.part = "B" /\ (Len(c.path) <= 2 \/ (CaseWeight(c) + Seed) % 16 = 0)
+  \/ c.part = "D" /\ (Len(c.path) <= 1 \/ (CaseWeight(c) + Seed) % 16 = 0)
 SelCases == {c \in Cases : Selected(c)}
 AllIds == {CaseId(c) : c \in Cases}
 SelIds == {CaseId(c) : c \in SelCases}
@@ -37,8 +38,14 @@ CellsB == /\ \A kd \in BKinds : \A f \in BForms(kd) : \A e \in Elems :
           /\ \A kd \in BKinds : \E c \in Cases : c.part = "B" /\ c.kind = kd /\ c.path = <<>>
 CellsC == \A pos \in CPositions : \A arr \in CArrivals :
             (pos = "global-annot" => ~CArrHasLocals(arr)) => \E c \in Cases : c.part = "C" /\ c.kind = pos /\ c.form = arr
+\* Part D: every (kind, form) cell under every placement element that can carry it, directly, and at both depths
+DCellSet == {<<c.kind, c.form, IF c.path = <<>> THEN "direct" ELSE Last(c.path)>> : c \in {x \in Cases : x.part = "D"}}
+CellsD == /\ \A kd \in DKinds : \A f \in DForms(kd) : \A e \in Elems \cup {"direct"} :
+               (e = "direct" \/ InSort(e) = "S" \/ DHasE(kd, f)) => <<kd, f, e>> \in DCellSet
+          /\ \A vk \in DVKinds : \A pos \in DReadPos(vk) : \A kd \in {"xread-global", "xread-outer"} : DPair(vk, pos) \in DForms(kd)
+          /\ \A c \in DCallees : DForms(DCallKind(c)) = DSurfaces
 IdsInjective == Cardinality(AllIds) = Cardinality(Cases)
-ASSUME Mode = "emit" => CellsA /\ CellsB /\ CellsC /\ IdsInjective
+ASSUME Mode = "emit" => CellsA /\ CellsB /\ CellsC /\ CellsD /\ IdsInjective
 ASSUME PrintT(<<"UNIVERSE", ToJson([all |-> Cardinality(Cases), selected |-> Cardinality(SelCases)])>>)
 
 Init == /\ pc = "start"
